@@ -355,7 +355,7 @@ CONFIG = {
         "extra_modules": ["PatVerif.Proofs.Sig", "PatVerif.Proofs.DER", "PatVerif.Proofs.ScReduce", "PatVerif.Proofs.ScMulAdd", "PatVerif.Proofs.ScScalar",
                           "PatVerif.Proofs.FeCarry", "PatVerif.Proofs.FeMul", "PatVerif.Proofs.FeMisc", "PatVerif.Proofs.FeBytes", "PatVerif.Proofs.FePow",
                           "PatVerif.Proofs.FeAbs", "PatVerif.Proofs.FeField", "PatVerif.Proofs.FeSqrt", "PatVerif.Proofs.EdPoints", "PatVerif.Proofs.EdDecode", "PatVerif.Proofs.SkelEd25519",
-                          "PatVerif.Proofs.PrimeP", "PatVerif.Proofs.FeInv", "PatVerif.Proofs.EdComplete", "PatVerif.Proofs.FeSqrtComplete", "PatVerif.Proofs.EdRefBridge", "PatVerif.Proofs.SkelScalarMult", "PatVerif.Proofs.EdAssoc", "PatVerif.Proofs.ScalarMultAlg", "PatVerif.Proofs.EdGroup", "PatVerif.Proofs.Recode", "PatVerif.Proofs.ScalarMultLit", "PatVerif.Proofs.EdRepr", "PatVerif.Proofs.ScalarMultRefine", "PatVerif.Proofs.ScalarBaseMultRefine", "PatVerif.Proofs.DoubleScalarMultRefine", "PatVerif.Proofs.Clamp", "PatVerif.Proofs.ScalarGlue", "PatVerif.Proofs.EdRefGroup", "PatVerif.Proofs.BaseOrder", "PatVerif.Props.C14Mult", "PatVerif.Props.C14Gen"],
+                          "PatVerif.Proofs.PrimeP", "PatVerif.Proofs.FeInv", "PatVerif.Proofs.EdComplete", "PatVerif.Proofs.FeSqrtComplete", "PatVerif.Proofs.EdRefBridge", "PatVerif.Proofs.SkelScalarMult", "PatVerif.Proofs.EdAssoc", "PatVerif.Proofs.ScalarMultAlg", "PatVerif.Proofs.EdGroup", "PatVerif.Proofs.Recode", "PatVerif.Proofs.ScalarMultLit", "PatVerif.Proofs.EdRepr", "PatVerif.Proofs.ScalarMultRefine", "PatVerif.Proofs.ScalarBaseMultRefine", "PatVerif.Proofs.DoubleScalarMultRefine", "PatVerif.Proofs.Clamp", "PatVerif.Proofs.ScalarGlue", "PatVerif.Proofs.EdRefGroup", "PatVerif.Proofs.BaseOrder", "PatVerif.Proofs.EdEncode", "PatVerif.Props.C14Mult", "PatVerif.Props.C14Gen"],
         "contradicts": "PatVerif.Props.C14, PatVerif.Props.C14Gen, PatVerif.Props.C14Mult",
     },
     "C15": {
@@ -388,7 +388,7 @@ CONFIG = {
         "extra_modules": ["PatVerif.Proofs.Group", "PatVerif.Proofs.Sig", "PatVerif.Proofs.ScReduce", "PatVerif.Proofs.ScMulAdd", "PatVerif.Proofs.ScScalar",
                           "PatVerif.Proofs.FeCarry", "PatVerif.Proofs.FeMul", "PatVerif.Proofs.FeMisc", "PatVerif.Proofs.FeBytes", "PatVerif.Proofs.FePow",
                           "PatVerif.Proofs.FeAbs", "PatVerif.Proofs.FeField", "PatVerif.Proofs.FeSqrt", "PatVerif.Proofs.EdPoints", "PatVerif.Proofs.EdDecode", "PatVerif.Proofs.SkelEd25519",
-                          "PatVerif.Proofs.PrimeP", "PatVerif.Proofs.FeInv", "PatVerif.Proofs.EdComplete", "PatVerif.Proofs.FeSqrtComplete", "PatVerif.Proofs.EdRefBridge", "PatVerif.Proofs.SkelScalarMult", "PatVerif.Proofs.EdAssoc", "PatVerif.Proofs.ScalarMultAlg", "PatVerif.Proofs.EdGroup", "PatVerif.Proofs.Recode", "PatVerif.Proofs.ScalarMultLit", "PatVerif.Proofs.EdRepr", "PatVerif.Proofs.ScalarMultRefine", "PatVerif.Proofs.ScalarBaseMultRefine", "PatVerif.Proofs.DoubleScalarMultRefine", "PatVerif.Proofs.Clamp", "PatVerif.Proofs.ScalarGlue", "PatVerif.Proofs.EdRefGroup", "PatVerif.Proofs.BaseOrder", "PatVerif.Props.C14Mult", "PatVerif.Props.C14Gen"],
+                          "PatVerif.Proofs.PrimeP", "PatVerif.Proofs.FeInv", "PatVerif.Proofs.EdComplete", "PatVerif.Proofs.FeSqrtComplete", "PatVerif.Proofs.EdRefBridge", "PatVerif.Proofs.SkelScalarMult", "PatVerif.Proofs.EdAssoc", "PatVerif.Proofs.ScalarMultAlg", "PatVerif.Proofs.EdGroup", "PatVerif.Proofs.Recode", "PatVerif.Proofs.ScalarMultLit", "PatVerif.Proofs.EdRepr", "PatVerif.Proofs.ScalarMultRefine", "PatVerif.Proofs.ScalarBaseMultRefine", "PatVerif.Proofs.DoubleScalarMultRefine", "PatVerif.Proofs.Clamp", "PatVerif.Proofs.ScalarGlue", "PatVerif.Proofs.EdRefGroup", "PatVerif.Proofs.BaseOrder", "PatVerif.Proofs.EdEncode", "PatVerif.Props.C14Mult", "PatVerif.Props.C14Gen"],
         "contradicts": "PatVerif.Props.C15",
     },
     "C16": {
